@@ -17,6 +17,18 @@ source compiles against the copied support library and jni.h (g++ -fsyntax-only)
 (c) no output of any target contains an unrendered template marker, and no undefined template value was
 printed or iterated (PYDJINNI_VERIF hook). Objective-C, Objective-C++ and C++/CLI have no compiler here:
 for them only (a) and (c) are decided (stated as partial in DESIGN.md).
+
+Reserved identifiers (`keyword_obligations`, model Gen/Keywords.lean, theorems Props/C01Keywords.lean, translator harness/kwtables.py):
+a name property validated against a table never emits a word of that table, the *converted* name decides, every `split`
+component is checked (`emitted_not_reserved`, `reserved_refused`, `validate_split`, `split_join`), and with reference table ⊆
+implementation table no reserved word of the language is emitted (`no_reserved_word_emitted`, `modelled_property_sound`).
+Generated every run from the live tree and discharged by `decide +kernel`: reference ⊆ live keyword table per language; every
+name-producing property of every `type.py` (by `ast`) is the one the model lists, decorator for decorator; every place a
+template prints such a property is validated, harmless by construction, or a listed finding. Tie: every name property of every
+marshalling object of one program that uses the run's name pool in every role, under several identifier-style configurations,
+against `nameOutcome`. Specification on the observation: a property never *returns* a reserved word of its language; a
+candidate is turned into a small program whose generated code contains the word as identifier (g++/javac reject it and accept
+its twin; token comparison for Objective-C and C++/CLI) and reported as `keyword:<generator>:<role>`.
 """
 from __future__ import annotations
 
@@ -27,11 +39,13 @@ import re
 import shutil
 from pathlib import Path
 
+import common
 import front
 import genrun
 import judges
+import kwtables
 
-LEAN_MODULE = "PydjinniModel.Props.C01"
+LEAN_MODULE = "PydjinniModel.Props.C01All"
 THEOREMS = [
     "Pydjinni.Gen.mentions_sub_provided",
     "Pydjinni.Gen.providedT_iff",
@@ -39,6 +53,19 @@ THEOREMS = [
     "Pydjinni.Gen.written_types_covered",
     "Pydjinni.Gen.optional_dep_of_writtenT",
     "Pydjinni.Gen.optional_header_included_record",
+    "Pydjinni.Gen.Keywords.emitted_not_reserved",
+    "Pydjinni.Gen.Keywords.emitted_not_reserved_whole",
+    "Pydjinni.Gen.Keywords.reserved_refused",
+    "Pydjinni.Gen.Keywords.converted_reserved_refused",
+    "Pydjinni.Gen.Keywords.outcome_error_documented",
+    "Pydjinni.Gen.Keywords.validate_split",
+    "Pydjinni.Gen.Keywords.split_join",
+    "Pydjinni.Gen.Keywords.no_reserved_word_emitted",
+    "Pydjinni.Gen.Keywords.modelled_property_sound",
+    "Pydjinni.Gen.Keywords.tokens_join",
+    "Pydjinni.Gen.Keywords.namespace_components_not_reserved",
+    "Pydjinni.Gen.Keywords.pascal_not_reserved",
+    "Pydjinni.Gen.Keywords.glued_not_reserved",
 ]
 LEVEL = "proof"
 TARGETS = ["cpp", "java", "objc", "cppcli", "yaml"]
@@ -103,6 +130,8 @@ SHAPES = {
     "kw_two_roles_rev": ("i = interface +cpp { m(delete: i32); }\ne = enum { delete; }", "documented:InvalidIdentifierException"),
     "kw_harmless_roles": ("e = enum { delete; new; class; }\ndelete = record { a: i32; }", None),
     "kw_java_field": ("e = enum { native; }\nr = record { native: i32; }", "documented:InvalidIdentifierException"),
+    "kw_cxx20_word": ("r = record { constinit: i32; }", "documented:InvalidIdentifierException"),
+    "kw_jni_param_camel": ("i = interface +cpp { m(delete_: i32); }", "documented:InvalidIdentifierException"),
     "cb_nested_generic_pair": ("foo = record { a: i32; }\nbar = record { b: i32; }\ni = interface +cpp { m(cb: (items: list<list<foo>>)); n(cb: (items: list<list<bar>>)); }", None),
     "cb_generic_pair_depth1": ("foo = record { a: i32; }\nbar = record { b: i32; }\ni = interface +cpp { m(cb: (items: map<string, foo>)); n(cb: (items: map<string, bar>)); }", None),
     "date_bin": ("i = interface +cpp { m(d: date, b: binary) -> date; }", None),
@@ -636,7 +665,104 @@ def covered(units: dict, u: str, x: str, depth=0) -> bool:
     return any(a.startswith("<anon>:") and covered(units, a, x, depth + 1) for a in deps)
 
 
+# witnesses of the reserved-identifier findings that no single name property returns (see Gen/Keywords.lean `knownUnvalidated`)
+KEYWORD_WITNESSES = [
+    {"key": "keyword:objc:user_info_key", "gen": "objc", "word": "int", "lang": "Objective-C", "targets": ["objc"],
+     "real": "i = error { n(t: i32); }", "twin": "qqi = error { n(t: i32); }",
+     "variant": {"objc": {"type_prefix": "", "identifier": {"type": "none"}}}},
+]
+
+
+def keyword_obligations(ctx):
+    """the reserved-identifier clause: generated obligations, correspondence with `nameOutcome`, specification on what the real
+    properties return, failing-input search (module docstring; harness/kwtables.py)"""
+    import time
+    t_start = time.time()
+    ref = ctx.driver.one({"op": "c01.kwref"})
+    if "error" in ref:
+        raise RuntimeError(f"driver error {ref}")
+    tables = kwtables.live_tables()
+    rows = kwtables.property_rows()
+    all_sites, untyped = kwtables.print_sites()
+    row_keys = {(r["gen"], r["cls"], r["attr"]) for r in rows}
+    sites = [s for s in all_sites if (s["gen"], s["cls"], s["attr"]) in row_keys]
+    bare = {(s["gen"], s["cls"], s["attr"]) for s in sites if s["bare"]}
+    src, names = kwtables.lean_source(tables, rows, sites)
+    ok, out = common.lean_check_file(src, "C01_keywords")
+    failed = kwtables.failed_obligations(src, names, ok, out)
+    for n in names:
+        ctx.obligation(f"keywords: {n}", n not in failed, kind="generated", detail="" if n not in failed else out[-400:])
+    ctx.obligation("keywords: every template expression that prints `<decl>.<generator>.<attribute>` could be typed", not untyped, kind="generated",
+                   detail=json.dumps(untyped[:3]))
+    ctx.stats["kw_tables"] = {k: len(v) for k, v in tables.items()}
+    ctx.stats["kw_property_rows"] = len(rows)
+    ctx.stats["kw_print_sites"] = len(sites)
+    missing = {lang: [w for w in words if w not in tables.get(lang, [])] for lang, words in ref["reference"].items()}
+    missing = {k: v for k, v in missing.items() if v}
+    # correspondence and specification on the real properties
+    pool = kwtables.name_pool(ctx.seed, tables, ref["reference"], ctx.n(60, 200))
+    cfgs = kwtables.configs(ctx.seed, ctx.n(2, 6))
+    results = kwtables.evaluate(ctx.tmp, pool, cfgs, rows)
+    infra = [r for r in results if r["kind"] != "ok"]
+    if infra:
+        raise common.Infra(f"keyword pool program could not be evaluated: {infra[0].get('label')} {infra[0]['kind']} {infra[0].get('msg', '')}")
+    kwtables.model_answers(ctx.driver, tables, results)
+    breaks, cands, stats = kwtables.compare(results, ref)
+    for r in results:
+        ctx.count(key=f"keywords/{r['label']}/{common.sha(json.dumps(r['config'], sort_keys=True) + ' '.join(pool))[:16]}", nontrivial=bool(r["tuples"]),
+                  sample={"name": "keywords:" + r["label"], "names": len(pool), "properties_evaluated": len(r["tuples"])})
+    ctx.stats["kw_names"] = len(pool)
+    ctx.stats["kw_tuples"] = stats
+    ctx.stats["kw_correspondence_breaks"] = len(breaks)
+    ctx.stats["kw_spec_candidates"] = len(cands)
+    ctx.obligation(f"keywords: nameOutcome = real name property on {stats['tuples']} (property, name, configuration) tuples", not breaks, kind="dynamic",
+                   detail=json.dumps(breaks[:2], default=str))
+    verdicts = kwtables.confirm(ctx.tmp, cands, tables, bare, groups=ctx.n(6, 16), per_group=ctx.n(4, 6))
+    reported = set()
+    for v in verdicts:
+        ctx.stat("kw_confirm_" + ("confirmed" if v["confirmed"] else v["outcome"]))
+        c = v["cand"]
+        key = f"keyword:{c['gen']}:{c['role']}"
+        if v["confirmed"] and key not in reported:
+            reported.add(key)
+            ctx.report(key, f"a reserved word of {c['lang']} is written into the generated {c['gen']} code as an identifier",
+                       {"input": {"m.djinni": v["program"], "config": v["config"], "targets": v["targets"]}, "twin": v.get("twin"), "word": c["word"],
+                        "name_property": f"{c['cls']}.{c['attr']}", "idl_name": c["name"], "configuration": c["config"],
+                        "evidence": {k: v.get(k) for k in ("identifier_uses", "files", "compiler")}})
+    # findings that are a concatenation of several properties: fixed witnesses
+    import multiprocessing as mp
+    wjobs = []
+    for w in KEYWORD_WITNESSES:
+        cfg = genrun.default_config(variant=json.loads(json.dumps(w["variant"])))
+        wjobs.append({"cand": {"gen": w["gen"], "word": w["word"], "lang": w["lang"], "key": w["key"]}, "real": w["real"], "twin": w["twin"], "config": cfg, "targets": w["targets"]})
+    with mp.get_context("fork").Pool(len(wjobs)) as pool_:
+        wres = pool_.map(kwtables._confirm_worker, [(str(ctx.tmp), 900 + i, j) for i, j in enumerate(wjobs)])
+    for w, v in zip(KEYWORD_WITNESSES, wres):
+        if v["confirmed"]:
+            ctx.report(w["key"], f"a reserved word of {w['lang']} is written into the generated {w['gen']} code as an identifier",
+                       {"input": {"m.djinni": w["real"], "config": v["config"], "targets": w["targets"]}, "twin": w["twin"], "word": w["word"],
+                        "evidence": v.get("identifier_uses")})
+        else:
+            ctx.stat("known_finding_witness_now_clean:" + w["key"])
+    ctx.stats["kw_wall_s"] = round(time.time() - t_start, 1)
+    ctx.assumptions += ["reserved identifiers: the reference tables of Gen/Keywords.lean are the specification (C++20 [lex.key], JLS 17 §3.9 + literals, C99 §6.4.1, "
+                        "ECMA-372 true keywords) and deliberately leave out context-sensitive words",
+                        "reserved identifiers: 'printed in identifier position' = printed by a template output expression; string-literal and comment positions are "
+                        "over-approximated as identifier positions; a print glued to literal identifier characters counts as part of a longer identifier",
+                        "reserved identifiers: a candidate is confirmed by g++/javac for C++, JNI and Java and by identifier-token comparison with a twin program "
+                        "for Objective-C and C++/CLI (no compiler here)"]
+    # a broken obligation or correspondence without a concrete program
+    if (failed or breaks or untyped) and not any(k.startswith("keyword:") for k in [v["key"] for v in ctx.violations]):
+        first = {"obligations_failed": failed[:6], "lean_output": out[-600:] if failed else "", "missing_reference_words": missing,
+                 "first_break": breaks[0] if breaks else None, "untyped": untyped[:2], "candidates_tried": [
+                     {"program": v["program"], "outcome": v["outcome"], "uses": v.get("identifier_uses")} for v in verdicts[:6]]}
+        ctx.report("correspondence:keywords", "keyword tables / validated roles / nameOutcome and the implementation disagree; no program whose generated code "
+                   "contains a reserved word as identifier was found",
+                   {"correspondence": "generated obligations of harness/kwtables.py and c01.kwname vs the real name properties", **first}, no_failing_input=True)
+
+
 def run(ctx):
+    keyword_obligations(ctx)
     ctx.coverage["rule"] = ("one small program per feature shape (closed world) and one witness per known finding, plus random compositions of clean "
                             "features under configuration variants; all targets generated; C++/JNI headers and sources judged with g++, Java with javac; "
                             "distinct = distinct program text; non-trivial = generation succeeded and at least one file was judged")
@@ -763,6 +889,13 @@ def run(ctx):
 
 def replay(ctx, body):
     inp = body["input"]
+    if str(body.get("key", "")).startswith("keyword:"):
+        gen = body["key"].split(":")[1]
+        twin = body.get("twin") or "qq" + inp["m.djinni"]
+        v = kwtables._confirm_worker((str(ctx.tmp), 0, {"cand": {"gen": gen, "word": body["word"]}, "real": inp["m.djinni"], "twin": twin,
+                                                        "config": inp["config"], "targets": inp["targets"]}))
+        print(json.dumps({k: v.get(k) for k in ("outcome", "diags", "identifier_uses", "files", "compiler", "confirmed")}, indent=1))
+        return not v["confirmed"]
     (r,) = run_cases(ctx.tmp, [{"name": "replay", "text": inp["m.djinni"], "config": inp["config"], "targets": inp["targets"], "expect": None,
                                 **{k: inp[k] for k in ("rounds", "clean") if k in inp}}])
     print(json.dumps({k: v for k, v in r.items() if k not in ("ast", "units", "includes", "files")}, indent=1)[:4000])
